@@ -127,6 +127,9 @@ func (p *Prog) trackedName(cc *ssa.CallCommon) string {
 		if p.CS.Tracked[n] {
 			return n
 		}
+		if f.Pkg != nil && p.CS.Tracked[f.Pkg.Pkg.Name()+"."+n] {
+			return f.Pkg.Pkg.Name() + "." + n
+		}
 		return ""
 	}
 	if _, ok := cc.Value.(*ssa.Builtin); ok {
@@ -253,6 +256,8 @@ func (p *Prog) modifiesEffect(e *Effect, c *Contract, f *ssa.Function) {
 			}
 		case strings.HasPrefix(m, "ghost "):
 			e.Ghost = append(e.Ghost, strings.TrimSpace(m[len("ghost "):]))
+		case strings.HasPrefix(m, "pooled "):
+			// not visible to callers
 		default:
 			i := strings.Index(m, ".")
 			if i < 0 {
